@@ -438,8 +438,13 @@ func consumeT[T any](c payloadCodec[T], a *msgArgs) string {
 			return "err key"
 		}
 		re := &recEncryptor{Encryptor: en}
+		// the one-call entry point must answer like UnmarshalCBOR + Decrypt (which lets the payload be inspected after a failure)
+		hm, herr := cose.DecryptEncrypt0Message[T](en, a.data, a.ext)
 		m := &cose.Encrypt0Message[T]{}
 		if err := m.UnmarshalCBOR(a.data); err != nil {
+			if herr == nil {
+				return "HELPER-DISAGREES"
+			}
 			return errClass(err)
 		}
 		if err := m.Decrypt(re, a.ext); err != nil {
@@ -447,7 +452,13 @@ func consumeT[T any](c payloadCodec[T], a *msgArgs) string {
 			if c.dump(m.Payload) != c.dump(zero) {
 				return "err PAYLOAD-LEAKED:" + c.dump(m.Payload)
 			}
+			if herr == nil {
+				return "HELPER-DISAGREES"
+			}
 			return errClass(err)
+		}
+		if herr != nil || c.dump(hm.Payload) != c.dump(m.Payload) || string(hm.Bytesify()) != string(m.Bytesify()) {
+			return "HELPER-DISAGREES"
 		}
 		return fmt.Sprintf("ok payload=%s prot=%s unprot=%s aad=%s nonce=%s", c.dump(m.Payload), hdrDump(m.Protected), hdrDump(m.Unprotected), joinHex(re.aads), joinHex(re.nonces))
 	case "encrypt":
@@ -456,8 +467,12 @@ func consumeT[T any](c payloadCodec[T], a *msgArgs) string {
 			return "err key"
 		}
 		re := &recEncryptor{Encryptor: en}
+		hm, herr := cose.DecryptEncryptMessage[T](en, a.data, a.ext)
 		m := &cose.EncryptMessage[T]{}
 		if err := m.UnmarshalCBOR(a.data); err != nil {
+			if herr == nil {
+				return "HELPER-DISAGREES"
+			}
 			return errClass(err)
 		}
 		if err := m.Decrypt(re, a.ext); err != nil {
@@ -465,7 +480,13 @@ func consumeT[T any](c payloadCodec[T], a *msgArgs) string {
 			if c.dump(m.Payload) != c.dump(zero) {
 				return "err PAYLOAD-LEAKED:" + c.dump(m.Payload)
 			}
+			if herr == nil {
+				return "HELPER-DISAGREES"
+			}
 			return errClass(err)
+		}
+		if herr != nil || c.dump(hm.Payload) != c.dump(m.Payload) || string(hm.Bytesify()) != string(m.Bytesify()) {
+			return "HELPER-DISAGREES"
 		}
 		return fmt.Sprintf("ok payload=%s prot=%s unprot=%s aad=%s nonce=%s recips=%s", c.dump(m.Payload), hdrDump(m.Protected), hdrDump(m.Unprotected), joinHex(re.aads), joinHex(re.nonces), recipsDump(m.Recipients()))
 	}
